@@ -1,6 +1,7 @@
 package main
 
 import (
+	"io"
 	"bytes"
 	stdjson "encoding/json"
 	"fmt"
@@ -151,8 +152,7 @@ func opJsonEnc(p []string) string {
 		return "bad-op"
 	}
 	opts := parseJSONOpts(p[0], p[1])
-	w := &recordingWriter{}
-	fl := runSteps(json.NewEncoder(w, opts), ts)
+	fl, w := encodeBoth(func(w io.Writer) stepper { return json.NewEncoder(w, opts) }, ts)
 	out := joinCalls(w.calls)
 	rt, oracle := "-", "ok"
 	if strings.HasSuffix(fl, "D") {
